@@ -191,7 +191,7 @@ package regattaserver
 //@ func snapshot.NewTemp
 //@   assumed
 //@   results f, err
-//@   ensures err == nil ==> f != nil && fresh(f) && f.File != nil && fresh(f.File) && f.w != nil && f.r != nil && len(f.lenBuff) == 8 && fresh(f.lenBuff)
+//@   ensures err == nil ==> f != nil && fresh(f) && f.File != nil && fresh(f.File) && f.w != nil && fresh(f.w) && f.r != nil && fresh(f.r) && len(f.lenBuff) == 8 && fresh(f.lenBuff) && allocated(f.lenBuff)
 //@   modifies nothing
 // ActiveTable.Snapshot: the state machine writes the pairs of one point-in-time view into the writer
 // and answers with the applied index of that same view (fsm.commandSnapshot, C07.capture.*)
